@@ -182,6 +182,12 @@ static const XMLCh  gEndComment[] =
     chDash, chDash, chCloseAngle, chNull
 };
 
+//--
+static const XMLCh  gDoubleDash[] =
+{
+    chDash, chDash, chNull
+};
+
 //<!DOCTYPE
 static const XMLCh  gStartDoctype[] =
 {
@@ -697,6 +703,9 @@ void DOMLSSerializerImpl::processNode(const DOMNode* const nodeToWrite, int leve
 
             ensureValidString(nodeToWrite, nodeName);
             ensureValidString(nodeToWrite, nodeValue);
+            // [16] PI: the data must not contain '?>'
+            if (XMLString::patternMatch(nodeValue, gEndPI) != -1)
+                reportError(nodeToWrite, DOMError::DOM_SEVERITY_FATAL_ERROR, XMLDOMMsg::INVALID_CHARACTER_ERR);
 
             if(level == 1 && getFeature(FORMAT_PRETTY_PRINT_1ST_LEVEL_ID))
                 printNewLine();
@@ -1131,6 +1140,8 @@ void DOMLSSerializerImpl::processNode(const DOMNode* const nodeToWrite, int leve
 
             if (getFeature(SPLIT_CDATA_SECTIONS_ID))
             {
+                // splitting copes with ']]>' and unrepresentable characters, not with illegal ones
+                ensureValidString(nodeToWrite, nodeValue);
                 // it is fairly complicated and we process this
                 // in a separate function.
                 procCdataSection(nodeValue, nodeToWrite);
@@ -1160,6 +1171,10 @@ void DOMLSSerializerImpl::processNode(const DOMNode* const nodeToWrite, int leve
                 break;
 
             ensureValidString(nodeToWrite, nodeValue);
+            // [15] Comment: no '--' inside and no '-' at the end
+            if (XMLString::patternMatch(nodeValue, gDoubleDash) != -1 ||
+                (lent > 0 && nodeValue[lent - 1] == chDash))
+                reportError(nodeToWrite, DOMError::DOM_SEVERITY_FATAL_ERROR, XMLDOMMsg::INVALID_CHARACTER_ERR);
 
             // Figure out if we want pretty-printing for this comment.
             // If this comment node does not have any element siblings
